@@ -138,3 +138,13 @@ claim("C11", "Coq theorems for the three palette decoders (functional specs, fin
       "orders, missing indices in raw cels / zlib cels / tilesets) against a Python expectation and the model, in release and dev builds.",
       "Modelled, not verified: dec_palette / dec_old_palette / validate_pixels against src/palette.rs, src/pixel.rs.",
       "DESIGN.md section 5, C11")
+claim("C07", "Coq equality theorems, one per encoding choice, up to load level through the factorisation + metamorphic encoding run",
+      "61 theorems: C07_trailer (bytes after the last frame), C07_ignorable_chunk_* and C07_color_profile_chunk_* (inserting a cel-extra / mask / path / sRGB or "
+      "none profile chunk anywhere: equal `load` on the encoded files), C07_chunk_tail_* (extra bytes at the end of any chunk; for compressed payloads under the "
+      "explicit premise that inflate ignores bytes after the stream), C07_unused_* (every reserved / unused field of the header and of each chunk kind), "
+      "C07_pixel_ratio (any ratio with a zero component or 1:1), C07_count_field_* (old-only, both, new-only chunk count), C07_raw_vs_zlib* and C07_zlib_stream_* "
+      "(raw vs compressed storage, any compression level: only `inflate z = raw` is assumed), C07_legacy_palette*, C07_cel_order*; for all sprites and all values. "
+      "The check re-proves them and encodes each generated sprite under several random vectors of these choices, requiring identical whole-API observations on the "
+      "implementation and equality with the model.",
+      "Assumed about zlib (recorded, checked at run time by using flate2 itself as the oracle): trailing bytes after a zlib stream are ignored. Modelled, not verified: as C01.",
+      "DESIGN.md section 5, C07")
